@@ -31,7 +31,8 @@ STAMP_WORDS = ("updated_at", "created_at", "force_updated_at", "force_created_at
                "now_int", "time_to_str")
 # functions that legitimately mention the machinery outside the idiom
 EXEMPT = {("File", "__init__"), ("File", "open"), ("File", "auto_update_timestamps")}
-CREATORS = {"create_new", "__init__"}
+CREATORS = {"create_new"}
+SWITCH_NAMES = ("auto_update_timestamps", "_auto_update_timestamps")
 FORCE = {"force_created_at": "created_at", "force_updated_at": "updated_at"}
 
 
@@ -379,6 +380,345 @@ def _c3(name, bases, memo):
     return res
 
 
+# ---------------------------------------------------------------------------------------------------------------
+# the switch: every place of nixio/**/*.py that reads or writes `auto_update_timestamps` / `_auto_update_timestamps`
+
+
+def _fn_params(fn):
+    a = fn.args
+    return [x.arg for x in a.posonlyargs + a.args + a.kwonlyargs] + ([a.vararg.arg] if a.vararg else []) + \
+        ([a.kwarg.arg] if a.kwarg else [])
+
+
+def _stores_to(fn, name):
+    """is the local name (re)bound anywhere in the function body"""
+    for n in ast.walk(fn):
+        if isinstance(n, ast.Name) and n.id == name and isinstance(n.ctx, (ast.Store, ast.Del)):
+            return True
+    return False
+
+
+def _walk_fn(node):
+    """ast.walk over the body and the argument defaults of a function (not its decorators) that does not descend
+    into nested function / class definitions (lambdas are part of the function)"""
+    todo = list(node.body) + [node.args]
+    while todo:
+        n = todo.pop()
+        yield n
+        for ch in ast.iter_child_nodes(n):
+            if not isinstance(ch, (ast.FunctionDef, ast.AsyncFunctionDef, ast.ClassDef)):
+                todo.append(ch)
+
+
+def _switch_uses_of_function(cls, fn, decs):
+    """-> [(use, detail)] for one function; `use` is one of initFromParam, setterFromParam, getterReturns, idiomTest,
+    openPasses, strayRead, strayWrite"""
+    uses = []
+    body = _strip_doc(fn.body)
+    claimed = set()
+    is_setter = any(d.endswith(".setter") for d in decs)
+    is_getter = "property" in decs
+    params = _fn_params(fn)
+
+    def self_switch(node, store):
+        return (isinstance(node, ast.Attribute) and node.attr == "_auto_update_timestamps"
+                and isinstance(node.value, ast.Name) and node.value.id == "self"
+                and isinstance(node.ctx, ast.Store if store else ast.Load))
+
+    def param(node):
+        return (isinstance(node, ast.Name) and isinstance(node.ctx, ast.Load) and node.id in params
+                and not _stores_to(fn, node.id))
+    # File.__init__: `self._auto_update_timestamps = <parameter auto_update_timestamps>` as a statement of the body
+    # itself (not under a condition), the parameter never re-bound
+    if cls == "File" and fn.name == "__init__":
+        for st in body:
+            if (isinstance(st, ast.Assign) and len(st.targets) == 1 and self_switch(st.targets[0], True)
+                    and param(st.value) and st.value.id == "auto_update_timestamps"):
+                uses.append(("initFromParam", ast.unparse(st)))
+                claimed |= {id(st.targets[0]), id(st.value)}
+    # the property File.auto_update_timestamps: getter `return self._auto_update_timestamps`, setter
+    # `self._auto_update_timestamps = <its parameter>`, each the whole body
+    if cls == "File" and fn.name == "auto_update_timestamps" and len(body) == 1:
+        st = body[0]
+        if is_getter and isinstance(st, ast.Return) and self_switch(st.value, False):
+            uses.append(("getterReturns", ast.unparse(st)))
+            claimed.add(id(st.value))
+        if (is_setter and isinstance(st, ast.Assign) and len(st.targets) == 1 and self_switch(st.targets[0], True)
+                and param(st.value) and len(params) == 2 and st.value.id == params[1]):
+            uses.append(("setterFromParam", ast.unparse(st)))
+            claimed |= {id(st.targets[0]), id(st.value)}
+    # File.open hands its parameter to the constructor
+    if cls == "File" and fn.name == "open":
+        for n in _walk_fn(fn):
+            if isinstance(n, ast.Call) and isinstance(n.func, ast.Name) and n.func.id == "cls":
+                for a in n.args:
+                    if param(a) and a.id == "auto_update_timestamps":
+                        uses.append(("openPasses", ast.unparse(n)))
+                        claimed.add(id(a))
+    # the idiom's test
+    for n in _walk_fn(fn):
+        if isinstance(n, ast.If) and _is_auto_test(n.test) and not n.orelse:
+            try:
+                _idiom_target(n, "%s.%s" % (cls, fn.name))
+            except ExtractError:
+                continue
+            uses.append(("idiomTest", ast.unparse(n.test)))
+            claimed.add(id(n.test))
+    # everything else that names the switch
+    for n in _walk_fn(fn):
+        if id(n) in claimed:
+            continue
+        if isinstance(n, ast.Attribute) and n.attr in SWITCH_NAMES:
+            store = isinstance(n.ctx, (ast.Store, ast.Del))
+            uses.append(("strayWrite" if store else "strayRead", ast.unparse(n)))
+        elif isinstance(n, ast.Name) and n.id in SWITCH_NAMES:
+            if isinstance(n.ctx, (ast.Store, ast.Del)):
+                uses.append(("strayWrite", "local name %s re-bound" % n.id))
+            elif not (n.id in params):
+                uses.append(("strayRead", n.id))
+            else:
+                uses.append(("strayRead", "parameter %s used" % n.id))
+        elif isinstance(n, ast.Constant) and n.value in SWITCH_NAMES:
+            # setattr(x, "auto_update_timestamps", v), x.__dict__["_auto_update_timestamps"] = v, getattr(...)
+            uses.append(("strayWrite", "the name as a string: dynamic access"))
+    return uses
+
+
+def scan_switch(repo):
+    """-> [(module, cls, function, use, detail)] over nixio/**/*.py without the test suite"""
+    out = []
+    files = sorted(glob.glob(os.path.join(repo, "nixio", "**", "*.py"), recursive=True))
+    for f in files:
+        rel = os.path.relpath(f, os.path.join(repo, "nixio"))
+        if rel.split(os.sep)[0] == "test":
+            continue
+        tree = ast.parse(open(f, encoding="utf-8").read(), filename=f)
+
+        def named(n):
+            return ((isinstance(n, ast.Attribute) and n.attr in SWITCH_NAMES) or
+                    (isinstance(n, ast.Name) and n.id in SWITCH_NAMES) or
+                    (isinstance(n, ast.Constant) and n.value in SWITCH_NAMES))
+
+        def function(fn, cls):
+            decs = [ast.unparse(d) for d in fn.decorator_list]
+            for use, detail in _switch_uses_of_function(cls, fn, decs):
+                out.append((rel, cls or "", fn.name, use, detail))
+            nested(fn, cls)
+
+        def nested(node, cls):
+            for ch in ast.iter_child_nodes(node):
+                if isinstance(ch, (ast.FunctionDef, ast.AsyncFunctionDef)):
+                    function(ch, cls)
+                elif isinstance(ch, ast.ClassDef):
+                    outside(ch, ch.name)
+                else:
+                    nested(ch, cls)
+
+        def outside(node, cls):
+            """module level and class level code"""
+            for ch in ast.iter_child_nodes(node):
+                if isinstance(ch, ast.ClassDef):
+                    outside(ch, ch.name)
+                elif isinstance(ch, (ast.FunctionDef, ast.AsyncFunctionDef)):
+                    function(ch, cls)
+                else:
+                    if named(ch):
+                        out.append((rel, cls or "", "module_or_class_level", "strayWrite", ast.unparse(ch)))
+                    outside(ch, cls)
+        outside(tree, None)
+    return out
+
+
+# ---------------------------------------------------------------------------------------------------------------
+# creation: what a class's `create_new` and the `create_*` factories do to the time stamps of the NEW entity
+
+
+def _is_now_text(v):
+    """util.time_to_str(util.now_int())"""
+    return _is_util_call(v, "time_to_str", 1) and _is_util_call(v.args[0], "now_int", 0)
+
+
+def _names_switch(node):
+    for n in ast.walk(node):
+        if isinstance(n, ast.Attribute) and n.attr in SWITCH_NAMES:
+            return True
+        if isinstance(n, ast.Name) and n.id in SWITCH_NAMES:
+            return True
+        if isinstance(n, ast.Constant) and n.value in SWITCH_NAMES:
+            return True
+    return False
+
+
+def _creation_steps(where, fn, classes, start):
+    """the steps a creating function performs on the entity it creates, in program order along the normal path.
+
+    start(stmt) -> (variable, step) when the statement binds the new entity.  Steps (rendered as `CStep`):
+      ("super",) ("construct",) ("createNew", C)   how the new entity comes into being
+      ("force", attr)          var.force_<attr>_at()                                        (no argument: the clock)
+      ("writeNow", attr)       var._h5group.set_attr("<attr>_at", util.time_to_str(util.now_int()))
+      ("assign", m, cond)      var.<m> = value       (runs the setter m of the new entity's class)
+      ("call", m, cond)        var.<m>(...)          (runs the method m)
+      ("switchUse",)           a statement that names the switch
+      ("unknown",)             any other statement that names the time stamp machinery, a stamp written under a
+                               condition, a `return` before the end once the entity exists
+    Statements that do neither (HDF5 plumbing, argument checks, the rollback handlers) are left out."""
+    steps = []
+    state = {"var": None}
+
+    def simple(st, cond, last):
+        var = state["var"]
+        if var is None:
+            got = start(st)
+            if got is not None:
+                state["var"], step = got
+                steps.append(step)
+                return
+            if _names_switch(st):
+                steps.append(("switchUse",))
+            elif _mentions(st):
+                steps.append(("unknown",))
+            return
+        if _names_switch(st):
+            steps.append(("switchUse",))
+            return
+        if isinstance(st, ast.Return):
+            if not last:
+                steps.append(("unknown",))
+            elif st.value is not None and _mentions(st.value):
+                steps.append(("unknown",))
+            return
+        if isinstance(st, ast.Expr) and isinstance(st.value, ast.Call) and isinstance(st.value.func, ast.Attribute):
+            c = st.value
+            tgt = c.func.value
+            if isinstance(tgt, ast.Name) and tgt.id == var:
+                if c.func.attr in FORCE:
+                    if c.args or c.keywords or cond:
+                        steps.append(("unknown",))
+                    else:
+                        steps.append(("force", GETTERS[FORCE[c.func.attr]]))
+                    return
+                if not any(_mentions(a) for a in list(c.args) + [k.value for k in c.keywords]):
+                    steps.append(("call", c.func.attr, cond))
+                    return
+            if (c.func.attr == "set_attr" and isinstance(tgt, ast.Attribute) and tgt.attr in ("_h5group", "_h5dataset")
+                    and isinstance(tgt.value, ast.Name) and tgt.value.id == var and len(c.args) == 2
+                    and not c.keywords and isinstance(c.args[0], ast.Constant) and c.args[0].value in GETTERS):
+                if _is_now_text(c.args[1]) and not cond:
+                    steps.append(("writeNow", GETTERS[c.args[0].value]))
+                else:
+                    steps.append(("unknown",))
+                return
+        if isinstance(st, (ast.Assign, ast.AugAssign)):
+            tgts = st.targets if isinstance(st, ast.Assign) else [st.target]
+            if len(tgts) == 1 and isinstance(tgts[0], ast.Attribute) and isinstance(tgts[0].value, ast.Name) \
+                    and tgts[0].value.id == var and not _mentions(st.value):
+                if tgts[0].attr in STAMP_WORDS:
+                    steps.append(("unknown",))
+                else:
+                    steps.append(("assign", tgts[0].attr, cond))
+                return
+            for t in tgts:
+                for n in ast.walk(t):
+                    if isinstance(n, ast.Name) and n.id == var and isinstance(n.ctx, ast.Store):
+                        steps.append(("unknown",))        # the variable is re-bound
+                        return
+        if _mentions(st):
+            steps.append(("unknown",))
+
+    def block(stmts, cond, top):
+        for k, st in enumerate(stmts):
+            last = top and k == len(stmts) - 1
+            if isinstance(st, ast.Try):
+                block(st.body, cond, False)
+                for h in st.handlers:
+                    for x in h.body:
+                        if _names_switch(x):
+                            steps.append(("switchUse",))
+                        elif _mentions(x):
+                            steps.append(("unknown",))
+                block(st.orelse, cond, False)
+                block(st.finalbody, cond, False)
+            elif isinstance(st, ast.If):
+                if _names_switch(st.test):
+                    steps.append(("switchUse",))
+                elif _mentions(st.test):
+                    steps.append(("unknown",))
+                block(st.body, True, False)
+                block(st.orelse, True, False)
+            elif isinstance(st, (ast.For, ast.AsyncFor, ast.While)):
+                block(st.body, True, False)
+                block(st.orelse, True, False)
+            elif isinstance(st, (ast.With, ast.AsyncWith)):
+                for it in st.items:
+                    if _names_switch(it.context_expr):
+                        steps.append(("switchUse",))
+                block(st.body, cond, False)
+            elif isinstance(st, (ast.FunctionDef, ast.AsyncFunctionDef, ast.ClassDef)):
+                if _names_switch(st):
+                    steps.append(("switchUse",))
+                elif _mentions(st):
+                    steps.append(("unknown",))
+            else:
+                simple(st, cond, last)
+
+    block(_strip_doc(fn.body), False, True)
+    if state["var"] is None:
+        return None
+    return steps
+
+
+def _creator_start(cls):
+    def start(st):
+        if isinstance(st, ast.Assign) and len(st.targets) == 1 and isinstance(st.targets[0], ast.Name) \
+                and isinstance(st.value, ast.Call):
+            f = st.value.func
+            # super(C, cls).create_new(...)  /  super().create_new(...)
+            if isinstance(f, ast.Attribute) and f.attr == "create_new" and isinstance(f.value, ast.Call) \
+                    and isinstance(f.value.func, ast.Name) and f.value.func.id == "super":
+                a = f.value.args
+                if not a or (len(a) == 2 and isinstance(a[0], ast.Name) and a[0].id == cls
+                             and isinstance(a[1], ast.Name) and a[1].id == "cls"):
+                    return st.targets[0].id, ("super",)
+            if isinstance(f, ast.Name) and f.id == "cls":
+                return st.targets[0].id, ("construct",)
+        return None
+    return start
+
+
+def _factory_start(classes):
+    def start(st):
+        if isinstance(st, ast.Assign) and len(st.targets) == 1 and isinstance(st.targets[0], ast.Name) \
+                and isinstance(st.value, ast.Call):
+            f = st.value.func
+            if isinstance(f, ast.Attribute) and f.attr == "create_new" and isinstance(f.value, ast.Name) \
+                    and f.value.id in classes:
+                return st.targets[0].id, ("createNew", f.value.id)
+        return None
+    return start
+
+
+def scan_creation(repo, classes, fns):
+    """-> (creators: {cls: steps}, factories: [(owner cls, method, created cls, steps)])"""
+    creators = {}
+    factories = []
+    for c, lst in fns.items():
+        for m in lst:
+            decs = [ast.unparse(d) for d in m.decorator_list]
+            if m.name == "create_new" and "classmethod" in decs:
+                steps = _creation_steps("%s.create_new" % c, m, classes, _creator_start(c))
+                if steps is not None:
+                    creators[c] = steps
+                elif _mentions(m):
+                    raise ExtractError("%s.create_new mentions the time stamp machinery but creates nothing the "
+                                       "translator recognises" % c)
+            elif m.name.startswith("create_") and not decs:
+                steps = _creation_steps("%s.%s" % (c, m.name), m, classes, _factory_start(classes))
+                if steps is not None:
+                    made = [s for s in steps if s[0] == "createNew"]
+                    factories.append((c, m.name, made[0][1], steps))
+    return creators, factories
+
+
 def scan_repo(repo):
     """-> (classes: {name: [bases]}, order: [names], members: [(cls, name, kind, touch, last)])"""
     files = sorted(glob.glob(os.path.join(repo, "nixio", "*.py")))
@@ -465,6 +805,7 @@ def scan_repo(repo):
             raise ExtractError("%s.%s defined twice" % (c, n))
         seen.add((c, n))
         members.append((c, n, k, outs))
+    scan_repo.creation = scan_creation(repo, classes, fns)
     return classes, order, members, mro, getters, forces
 
 
@@ -579,7 +920,101 @@ def extract(repo):
     L.append("  | _ => none")
     L.append("")
     L.append("end Nix.Stamps.Gen")
-    return {"NixModel/Generated/Setters.lean": "\n".join(L) + "\n"}
+    return {"NixModel/Generated/Setters.lean": "\n".join(L) + "\n",
+            "NixModel/Generated/Creation.lean": _render_creation(repo, order, members, memnames)}
+
+
+def _render_creation(repo, order, members, memnames):
+    """Generated/Creation.lean: every use of the auto-update switch in nixio/**/*.py, and what the `create_new`
+    class methods and the `create_*` factories do to the time stamps of the entity they create"""
+    uses = scan_switch(repo)
+    creators, factories = scan_repo.creation
+    setters = set(n for _, n, k, _ in members if k == "setter")
+    methods = set(n for _, n, k, _ in members if k == "method")
+
+    def step(st):
+        k = st[0]
+        if k in ("super", "construct", "switchUse", "unknown"):
+            return "." + k
+        if k == "createNew":
+            return "(.createNew .%s)" % st[1]
+        if k in ("force", "writeNow"):
+            return "(.%s .%s)" % (k, st[1])
+        if k == "assign":
+            if st[1] in setters:
+                return "(.assign .%s %s)" % (_mem_id(st[1]), lean_bool(st[2]))
+            return None                                   # a plain attribute of the Python object
+        if k == "call":
+            if st[1] in methods:
+                return "(.call .%s %s)" % (_mem_id(st[1]), lean_bool(st[2]))
+            return ".unknown"
+        raise ExtractError("unknown creation step %r" % (st,))
+
+    def steps(lst):
+        return "[%s]" % ", ".join(x for x in (step(s) for s in lst) if x is not None)
+    L = []
+    L.append("/- GENERATED by harness/extract/setters.py from nixio/**/*.py — do not edit. -/")
+    L.append("import NixModel.Generated.Setters")
+    L.append("namespace Nix.Stamps.Gen")
+    L.append("")
+    L.append("/-- one place that names the switch `auto_update_timestamps` / `_auto_update_timestamps`:")
+    L.append("`initFromParam`: `self._auto_update_timestamps = auto_update_timestamps` as an unconditional statement of")
+    L.append("`File.__init__` (the parameter never re-bound); `setterFromParam` / `getterReturns`: the whole body of the")
+    L.append("property's setter (`self._auto_update_timestamps = <its parameter>`) / getter; `idiomTest`: the test of the")
+    L.append("recognised idiom `if self.file.auto_update_timestamps: self.force_updated_at()`; `openPasses`: `File.open`")
+    L.append("hands its parameter to the constructor; `strayRead` / `strayWrite`: anything else (an assignment from")
+    L.append("another function, a saved copy, dynamic access by name, ...) -/")
+    L.append("inductive SwitchUse where")
+    L.append("  | initFromParam | setterFromParam | getterReturns | idiomTest | openPasses | strayRead | strayWrite")
+    L.append("  deriving DecidableEq, Repr")
+    L.append("structure SwitchUseAt where")
+    L.append("  file : String")
+    L.append("  cls : String")
+    L.append("  fn : String")
+    L.append("  use : SwitchUse")
+    L.append("  deriving Repr")
+    L.append("")
+    L.append("def switchUses : List SwitchUseAt := [")
+    L.append(",\n".join("  ⟨%s, %s, %s, .%s⟩" % (lean_str(f), lean_str(c), lean_str(fn), u) for f, c, fn, u, _ in uses))
+    L.append("]")
+    L.append("")
+    L.append("/-- what a creating function does to the entity it creates, in program order along the normal path:")
+    L.append("`super` = `v = super(C, cls).create_new(...)`, `construct` = `v = cls(...)`, `createNew C` = `v = C.create_new(...)`;")
+    L.append("`force a` = `v.force_<a>_at()` (no argument: the clock), `writeNow a` = the attribute written with")
+    L.append("`util.time_to_str(util.now_int())`; `assign m cond` = `v.m = ...` (the setter runs), `call m cond` = `v.m(...)`,")
+    L.append("`cond` when under a condition; `switchUse` = a statement naming the switch; `unknown` = any other statement")
+    L.append("naming the time stamp machinery, a stamp written under a condition or with an argument, an early `return` -/")
+    L.append("inductive CStep where")
+    L.append("  | super | construct | createNew (c : Cls)")
+    L.append("  | force (a : StampAttr) | writeNow (a : StampAttr)")
+    L.append("  | assign (m : Mem) (cond : Bool) | call (m : Mem) (cond : Bool)")
+    L.append("  | switchUse | unknown")
+    L.append("  deriving DecidableEq, Repr")
+    L.append("")
+    L.append("/-- `create_new` as defined by a class -/")
+    L.append("structure Creator where")
+    L.append("  cls : Cls")
+    L.append("  steps : List CStep")
+    L.append("  deriving DecidableEq, Repr")
+    L.append("")
+    L.append("def creators : List Creator := [")
+    L.append(",\n".join("  ⟨.%s, %s⟩" % (c, steps(creators[c])) for c in order if c in creators))
+    L.append("]")
+    L.append("")
+    L.append("/-- a `create_*` method: `owner.mem(...)` makes an object of class `creates` -/")
+    L.append("structure Factory where")
+    L.append("  owner : Cls")
+    L.append("  mem : Mem")
+    L.append("  creates : Cls")
+    L.append("  steps : List CStep")
+    L.append("  deriving DecidableEq, Repr")
+    L.append("")
+    L.append("def factories : List Factory := [")
+    L.append(",\n".join("  ⟨.%s, .%s, .%s, %s⟩" % (o, _mem_id(m), c, steps(st)) for o, m, c, st in factories))
+    L.append("]")
+    L.append("")
+    L.append("end Nix.Stamps.Gen")
+    return "\n".join(L) + "\n"
 
 
 if __name__ == "__main__":
